@@ -171,36 +171,162 @@ def check_inner(chk, u, name, callee, spacing_member):
 
 
 def outer_table(fn, D, ghost):
-    """Per face direction: dict of the assigned quantities as sympy / symbols."""
-    sw, arms, default = switch_arms(fn)
-    rows = {}
-    for v, arm in arms.items():
+    """Per face direction: the values of the table locals when the sweep loops start, obtained by partially evaluating
+    the statements in front of the loop nest for that direction (switch arms, if / conditional expressions on the
+    direction, flags, values hoisted out of or sunk below the switch)."""
+    import copy
+    dpar = [p for p in fn["params"] if p["n"] == "direction" or "int" in p["t"] and "direction" in p["n"]]
+    if len(dpar) != 1:
+        raise AnalysisBroken("%s: direction parameter not found" % fn["full"])
+    dkey = dpar[0]["id"]
+    top = fn["body"]["s"]
+    loops = [i for i, s2 in enumerate(top) if s2.get("k") == "For"]
+    if not loops:
+        raise AnalysisBroken("%s: no loop nest" % fn["full"])
+    prefix = top[:loops[0]]
+    sws = [s2 for s2 in C.walk_stmt({"k": "Block", "s": prefix}) if s2.get("k") == "Switch"]
+    arm_of = {}
+    default = None
+    if sws:
+        _, arms0, default = switch_arms(fn, sws[0])
+        arm_of = arms0
+
+    def run_for(v):
+        env = {}            # local id -> value
+        names = {}          # local id -> name
         conv = Converter(atoms=member_atoms, integer=False)
-        env = Env()
-        row = {}
-        for s in arm["stmts"]:
-            for x in C.walk_stmt(s):
-                if x.get("k") == "Bin" and x["op"] == "=":
-                    t = C.strip_casts(x["a"])
-                    if t.get("k") == "Ref" and "id" in t:
-                        r = C.strip_casts(x["b"])
-                        if r.get("k") == "This":
-                            row[t["n"]] = "this"
-                        elif r.get("k") == "Un" and r["op"] == "&":
-                            row[t["n"]] = "neighbour"
-                        elif r.get("k") == "Ctor" or (r.get("k") == "Call" and r.get("op") == "="):
-                            row[t["n"]] = C.pretty(r)
-                        else:
-                            try:
-                                row[t["n"]] = conv.conv(x["b"], env)
-                            except AnalysisBroken:
-                                row[t["n"]] = C.pretty(r)
-                elif x.get("k") == "Call" and x.get("op") == "=" and x.get("obj") is not None:
-                    t = C.strip_casts(x["obj"])
-                    if t.get("k") == "Ref":
-                        row[t["n"]] = ("vec", [C.pretty(a) for a in C.strip_casts(x["a"][0]).get("a", [])]) \
-                            if C.strip_casts(x["a"][0]).get("k") == "Ctor" else C.pretty(x["a"][0])
-        rows[v] = (row, arm)
+
+        def subst(e):
+            """Copy of e with locals that hold a concrete integer replaced by literals (for subscripts)."""
+            if isinstance(e, dict):
+                if e.get("k") == "Ref" and "id" in e:
+                    if e["id"] == dkey:
+                        return {"k": "Int", "v": v, "l": e.get("l")}
+                    val = env.get(e["id"])
+                    if isinstance(val, (int, sp.Integer)):
+                        return {"k": "Int", "v": int(val), "l": e.get("l")}
+                return {k2: subst(x) for k2, x in e.items()}
+            if isinstance(e, list):
+                return [subst(x) for x in e]
+            return e
+
+        def truth(e):
+            e = C.strip_casts(e)
+            k2 = e.get("k")
+            if k2 == "Bool":
+                return bool(e["v"])
+            if k2 == "Ref" and "id" in e and isinstance(env.get(e["id"]), bool):
+                return env[e["id"]]
+            if k2 == "Un" and e["op"] == "!":
+                t = truth(e["x"])
+                return None if t is None else (not t)
+            if k2 == "Bin" and e["op"] in ("||", "&&"):
+                a2, b2 = truth(e["a"]), truth(e["b"])
+                if e["op"] == "||":
+                    return True if (a2 is True or b2 is True) else (False if (a2 is False and b2 is False) else None)
+                return False if (a2 is False or b2 is False) else (True if (a2 is True and b2 is True) else None)
+            if k2 == "Bin" and e["op"] in ("==", "!=", "<", ">", "<=", ">="):
+                x, y = value(e["a"]), value(e["b"])
+                if isinstance(x, (int, sp.Integer)) and isinstance(y, (int, sp.Integer)):
+                    x, y = int(x), int(y)
+                    return {"==": x == y, "!=": x != y, "<": x < y, ">": x > y, "<=": x <= y, ">=": x >= y}[e["op"]]
+            return None
+
+        def value(e):
+            e0 = C.strip_casts(e)
+            k2 = e0.get("k")
+            if k2 == "This":
+                return "this"
+            if k2 == "Un" and e0["op"] == "&":
+                return "neighbour" if C.strip_casts(e0["x"]).get("n") == "neighbour" else C.pretty(e0)
+            if k2 == "Cond":
+                t = truth(e0["c"])
+                if t is None:
+                    return C.pretty(e0)
+                return value(e0["a"] if t else e0["b"])
+            if k2 == "Ref" and "id" in e0:
+                if e0["id"] == dkey:
+                    return v
+                if e0["id"] in env:
+                    return env[e0["id"]]
+            if k2 in ("Bool",):
+                return bool(e0["v"])
+            t = truth(e0) if k2 in ("Bin", "Un") and e0.get("op") in ("==", "!=", "||", "&&", "!") else None
+            if t is not None:
+                return t
+            if k2 == "Ctor" and "CoordinateVector" in (e0.get("cls") or ""):
+                return ("vec", [C.pretty(a2) for a2 in e0.get("a", [])])
+            if k2 == "Ctor" or (k2 == "Call" and e0.get("op") == "="):
+                return C.pretty(e0)
+            ci = C.const_int(e0)
+            if ci is not None:
+                return ci
+            try:
+                cenv = Env()
+                for did, val in env.items():
+                    if isinstance(val, (sp.Basic, int)) and not isinstance(val, bool):
+                        cenv.vals[("l", did)] = sp.Integer(val) if isinstance(val, int) else val
+                r = conv.conv(subst(e0), cenv)
+                if isinstance(r, sp.Integer):
+                    return int(r)
+                return r
+            except AnalysisBroken:
+                return C.pretty(e0)
+
+        def run(st):
+            k2 = st.get("k")
+            if k2 == "Block":
+                if st.get("mac"):
+                    return
+                for c2 in st.get("s", []):
+                    run(c2)
+            elif k2 == "Decl":
+                for d in st["d"]:
+                    names[d["id"]] = d["n"]
+                    if d.get("init") is not None:
+                        env[d["id"]] = value(d["init"])
+            elif k2 == "Bin" and st["op"] == "=":
+                t = C.strip_casts(st["a"])
+                if t.get("k") == "Ref" and "id" in t:
+                    names.setdefault(t["id"], t["n"])
+                    env[t["id"]] = value(st["b"])
+            elif k2 == "Call" and st.get("op") == "=" and st.get("obj") is not None and st["a"]:
+                t = C.strip_casts(st["obj"])
+                if t.get("k") == "Ref" and "id" in t:
+                    names.setdefault(t["id"], t["n"])
+                    env[t["id"]] = value(st["a"][0])
+            elif k2 == "If":
+                t = truth(st["c"])
+                if t is None:
+                    raise AnalysisBroken("%s: condition `%s` in front of the sweep loops does not depend on the direction only"
+                                         % (fn["full"], C.pretty(st["c"])[:60]))
+                if t:
+                    run(st["th"])
+                elif st.get("el") is not None:
+                    run(st["el"])
+            elif k2 == "Switch":
+                sel = value(st["c"])
+                _, arms2, dflt = switch_arms(fn, st)
+                arm = arms2.get(sel, dflt)
+                if arm is not None:
+                    for s3 in arm["stmts"]:
+                        run(s3)
+            elif k2 in ("Null", "Break"):
+                pass
+            else:
+                # other statements (assertions, logging) do not define table locals
+                pass
+        for s2 in prefix:
+            run(s2)
+        return {names[i]: val for i, val in env.items() if i in names}
+
+    rows = {}
+    for v in sorted(D.all27()):
+        arm = arm_of.get(v)
+        if sws and (arm is None or arm_aborts(arm)):
+            continue
+        row = run_for(v)
+        rows[v] = (row, arm if arm is not None else {"line": fn.get("line"), "stmts": []})
     return rows, default
 
 
